@@ -1,5 +1,5 @@
 (* Extraction of the executable models (trusted base: ExtrOcamlBasic only;
    Z, positive and nat stay extracted inductive datatypes). *)
 From Coq Require Import ExtrOcamlBasic.
-From PyecoreV Require Import Model.Coll Model.KernelIO Model.Commands Model.SaveFsIO Model.DataConv.
-Extraction "modelgen.ml" run_coll run_kernel run_commands run_savefs run_dataconv.
+From PyecoreV Require Import Model.Coll Model.KernelIO Model.Fragment Model.Commands Model.SaveFsIO Model.DataConv Model.C3 Model.Operations Model.MetaEdit Model.EcoreIO.
+Extraction "modelgen.ml" run_coll run_kernel run_frag run_commands run_savefs run_dataconv run_c3 run_sig run_promote run_iskw run_metaedit run_ecoremm.
